@@ -50,6 +50,9 @@ mod context;
 mod environment;
 pub mod error;
 
+#[cfg(all(feature = "verif", feature = "tokio_runtime"))]
+pub mod verif;
+
 pub use hannibal_derive::{main, message};
 
 #[cfg(feature = "runtime")]
